@@ -21,6 +21,7 @@ type Scenario struct {
 	Name       string
 	Build      func(w *World)
 	Check      func(w *World)
+	Settle     func(w *World) // after the main phase, faults off, before the drain: enqueue post-fault probes
 	NonTrivial []string // a run is non-trivial if one of these probes fired (and see RunResult.NonTrivial)
 	Weight     int      // relative share of runs (default 1)
 	Race       bool     // meaningful only in the race build
@@ -133,6 +134,11 @@ func runOnce(t *testing.T, sc *Scenario, tape *Tape, keepLog bool) (res RunResul
 		tape.Phase = "sched"
 		w.S.Quiesce()
 		w.RunMain()
+		if sc.Settle != nil && !w.stopNow {
+			w.FaultsOn = false
+			w.Drain()
+			sc.Settle(w)
+		}
 		w.Drain()
 		if !w.stopNow {
 			w.CheckNoDeadlock()
